@@ -1,1 +1,2 @@
+import Neutrino.Props.C06
 import Neutrino.Props.C16
